@@ -196,37 +196,8 @@ def cvx_cases(tier, seed):
                     yield {"dims": dims, "sys": sys_, "dimform": form, "var": kind}
 
 
-def held_values(N, M, kind, which):
-    """Two unrelated arrays a Variable of the given kind can hold (integer-valued: all sums exact)."""
-    idx = np.arange(N * M, dtype=np.int64).reshape(N, M)
-    if which == 0:
-        re, im = idx + 1.0, ((idx * 7919 + 13) % 10007).astype(float)
-    else:
-        re, im = ((idx * 31 + 7) % 1009).astype(float) - 500.0, ((idx * 17 + 3) % 211).astype(float) - 100.0
-    if kind == "real":
-        return re
-    if kind == "complex":
-        return re + 1j * im
-    if kind == "hermitian":
-        z = re + 1j * im
-        return z + z.conj().T
-    if kind == "symmetric":
-        return re + re.T
-    raise KeyError(kind)
-
-
-def make_variable(N, M, kind):
-    import cvxpy
-
-    if kind == "real":
-        return cvxpy.Variable((N, M))
-    if kind == "complex":
-        return cvxpy.Variable((N, M), complex=True)
-    if kind == "hermitian":
-        return cvxpy.Variable((N, N), hermitian=True)
-    if kind == "symmetric":
-        return cvxpy.Variable((N, N), symmetric=True)
-    raise KeyError(kind)
+held_values = lb.held_values
+make_variable = lb.make_variable
 
 
 def cvx_check(case):
@@ -456,7 +427,7 @@ CLAUSES = [
            doc="partial_trace vs Python multi-index contraction on exact additive labels and numeric dtypes; trace preserved"),
     Clause("C02.scalar_dim", scalar_cases, scalar_check,
            doc="scalar dim d (every divisor of N) means [d, N/d]; omitted dim means two equal subsystems; omitted sys = second"),
-    Clause("C02.cvxpy", cvx_cases, cvx_check, tol="alg",
+    Clause("C02.cvxpy", cvx_cases, cvx_check, tol="alg", weight=0.01, chunk=40,
            doc="cvxpy Variable (real/complex/hermitian) input: .value of the returned expression = contraction = ndarray result, for two held arrays"),
     Clause("C02.linearity", linearity_cases, linearity_check, weight=0.05,
            doc="basis images E_ab, i*E_ab, and additivity/homogeneity on all ordered pairs of basis elements (N<=6 quick, <=8 thorough)"),
